@@ -992,5 +992,5 @@ class _Unbound:
 
 
 _UNBOUND = _Unbound()
-_SPEC_TYPES = {"Ref": V.Ref, "List": V.List, "Opt": V.Opt, "Tup": V.Tup, "INT": V.INT, "REAL": V.REAL, "BOOL": V.BOOL, "STR": V.STR, "BYTES": V.BYTES}
+_SPEC_TYPES = {"Opaque": V.Opaque, "Ref": V.Ref, "List": V.List, "Opt": V.Opt, "Tup": V.Tup, "INT": V.INT, "REAL": V.REAL, "BOOL": V.BOOL, "STR": V.STR, "BYTES": V.BYTES}
 _BUILTIN_NAMES = {}
